@@ -48,7 +48,12 @@ pub fn calc_cumulative_capital_gains(
     let mut capital_gains_total = Decimal::ZERO;
     let mut cap_gains_year_totals = HashMap::<i32, Decimal>::new();
 
-    for gains in sec_gains.values() {
+    // Sums of rounded decimals: add the securities in a fixed (sorted) order
+    // rather than in the map's per-run iteration order.
+    let mut sorted_secs: Vec<&Security> = sec_gains.keys().collect();
+    sorted_secs.sort();
+    for sec in sorted_secs {
+        let gains = &sec_gains[sec];
         capital_gains_total += gains.capital_gains_total;
         for (year, year_gains) in &gains.capital_gains_years_totals {
             let year_total_so_far =
